@@ -52,7 +52,7 @@ Proof.
                 && le_cap af chi); [|discriminate].
       injection Hst as <-. cbn [pend]. left. reflexivity.
     + specialize (IH s1 Hr1 a0 b0 Hp0).
-      destruct o as [ts r|x y|x y chi c rk bf af|la lb pa pb chi c rk bf af|x y|x y|cap bonds|k ts|k];
+      destruct o as [ts r|x y|x y chi c rk bf af|la lb pa pb chi c rk bf af|x y|x y|cap bonds|k ts|bcap bbonds|k];
         cbn [step ren_op is_handover] in *; try discriminate.
       * destruct (negb match ts with [] => true | _ :: _ => false end && forallb (alive s1) ts
                   && nodupb ts && (mem r ts || alive s1 r)); [|discriminate].
@@ -68,6 +68,9 @@ Proof.
       * destruct (pair_ok s1 x y); [|discriminate]. injection Hst as <-. exact IH.
       * destruct (pair_ok s1 x y); [|discriminate]. injection Hst as <-. exact IH.
       * destruct (forallb (alive s1) ts); [|discriminate]. injection Hst as <-. exact IH.
+      * destruct (forallb (alive s1) (mentions (Boundary bcap bbonds))
+                  && forallb (fun e => le_cap (snd e) bcap) bbonds); [|discriminate].
+        injection Hst as <-. exact IH.
 Qed.
 
 Definition within (sz : nat) (cap : option nat) : Prop :=
@@ -150,7 +153,7 @@ Qed.
 Lemma step_dead_mono s o s' : step s o = Some s' -> incl (dead s) (dead s').
 Proof.
   intros H x Hx.
-  destruct o as [ts r|a b|a b chi c rk bf af|la lb pa pb chi c rk bf af|a b|a b|cap bonds|k ts|k];
+  destruct o as [ts r|a b|a b chi c rk bf af|la lb pa pb chi c rk bf af|a b|a b|cap bonds|k ts|bcap bbonds|k];
     cbn [step] in H;
     match type of H with (if ?c then _ else _) = _ => destruct c; [|discriminate] | _ => idtac end;
     try discriminate; injection H as <-; cbn [dead]; try exact Hx.
@@ -183,7 +186,7 @@ Qed.
 Lemma step_mentions_alive s o s' : step s o = Some s' -> forall x, In x (mentions o) -> ~ In x (dead s).
 Proof.
   intros H x Hx.
-  destruct o as [ts r|a b|a b chi c rk bf af|la lb pa pb chi c rk bf af|a b|a b|cap bonds|k ts|k];
+  destruct o as [ts r|a b|a b chi c rk bf af|la lb pa pb chi c rk bf af|a b|a b|cap bonds|k ts|bcap bbonds|k];
     cbn [step] in H; cbn [mentions In] in Hx.
   - destruct (negb match ts with [] => true | _ :: _ => false end && forallb (alive s) ts
               && nodupb ts && (mem r ts || alive s r)) eqn:Hc; [|discriminate].
@@ -212,6 +215,8 @@ Proof.
   - destruct (forallb (alive s) (mentions (HandOver cap bonds))) eqn:Hc; [|discriminate].
     eapply forallb_alive; [exact Hc | exact Hx].
   - destruct (forallb (alive s) ts) eqn:Hc; [|discriminate]. eapply forallb_alive; eassumption.
+  - destruct (forallb (alive s) (mentions (Boundary bcap bbonds))) eqn:Hc; [|discriminate].
+    eapply forallb_alive; [exact Hc | exact Hx].
   - discriminate.
 Qed.
 
@@ -263,4 +268,20 @@ Proof.
   induction p as [|o p IH]; cbn [forallb]; [reflexivity|].
   intros H. apply andb_true_iff in H. destruct H as [Ho Hp].
   rewrite (exact_under_op cap o Ho), (IH Hp). reflexivity.
+Qed.
+
+(* ---- a returned boundary layer is within the cap on EVERY bond between its
+   tensors (total size over all shared indices), compressed or not ------------- *)
+Theorem plan_boundary_cap : forall p, plan_ok p = true ->
+  forall cap bonds, In (Boundary cap bonds) p ->
+  forall a b sz, In (a, b, sz) bonds -> within sz cap.
+Proof.
+  intros p Hok cap bonds Hin a b sz He. apply plan_ok_run in Hok. destruct Hok as [s Hrun].
+  apply in_split in Hin. destruct Hin as [pre [post E]].
+  destruct (run_each p init s Hrun pre _ post E) as [s1 [s2 [_ [Hst _]]]].
+  cbn [step] in Hst.
+  destruct (forallb (alive s1) (mentions (Boundary cap bonds))); [|discriminate]. cbn [andb] in Hst.
+  destruct (forallb (fun e => le_cap (snd e) cap) bonds) eqn:Hall; [|discriminate].
+  rewrite forallb_forall in Hall. specialize (Hall (a, b, sz) He). cbn [snd] in Hall.
+  apply le_cap_within. exact Hall.
 Qed.
